@@ -16,9 +16,10 @@ func e0Profile(prop string, checks ...string) *Profile {
 }
 
 var Props = map[string]PropRunner{
-	"C20": RunE3,
-	"C13": func(r *Run) { RunE1(r, "C13") },
-	"C14": func(r *Run) { RunE1(r, "C14") },
+	"C20":  RunE3,
+	"C20c": RunC20c,
+	"C13":  func(r *Run) { RunE1(r, "C13") },
+	"C14":  func(r *Run) { RunE1(r, "C14") },
 	// the structural properties C01-C05 quantify over histories; a history may be concurrent on one log
 	// instance: the same shared-log scenarios as C13, reported under the property whose statement breaks
 	"C01c": func(r *Run) { RunE1(r, "C01") },
